@@ -240,6 +240,50 @@ type WOddSizePtr struct {
 	}
 }
 
+// a non-nil pointer to a zero value is not null
+type WPtrZero struct {
+	T *time.Time
+	S *string
+	I *int64
+	F *float64
+	Q int64
+}
+
+// more distinct allocation types in one record than any small table holds, two pointers of each
+type mpA struct{ X int64 }
+type mpB struct {
+	Y string
+	Z int32
+}
+type WManyPtrTypes struct {
+	A1 *int64
+	B1 *int32
+	C1 *int16
+	D1 *float32
+	E1 *float64
+	F1 *bool
+	G1 *string
+	H1 *time.Time
+	I1 *mpA
+	J1 *mpB
+	K1 *null.Int
+	L1 *[]int64
+	M1 *map[string]int64
+	A2 *int64
+	B2 *int32
+	C2 *int16
+	D2 *float32
+	E2 *float64
+	F2 *bool
+	G2 *string
+	H2 *time.Time
+	I2 *mpA
+	J2 *mpB
+	K2 *null.Int
+	L2 *[]int64
+	M2 *map[string]int64
+}
+
 // several pointers to wrapper / time types in one record (their slots come from the same bank)
 type WPtrTimes struct {
 	A *time.Time
@@ -385,6 +429,22 @@ func witnessCases() []witness {
 			t3 := time.Date(2038, 1, 19, 3, 14, 8, 999999000, time.FixedZone("", -5*3600))
 			n1, n2, ns := null.TimeFrom(t2), null.TimeFrom(t3), null.StringFrom("str")
 			return vals(WPtrTimes{&t1, &t2, &n1, &n2, &ns, &t3}, WPtrTimes{A: &t3, C: &n2}, WPtrTimes{&t2, &t1, &n2, &n1, &ns, &t1})(c)
+		}},
+		{staticOf[WPtrZero]("pointers-to-zero-values"), func(c *driverCtx) []reflect.Value {
+			zs, zi, zf := "", int64(0), 0.0
+			return vals(WPtrZero{&time.Time{}, &zs, &zi, &zf, 1}, WPtrZero{Q: 2}, WPtrZero{&time.Time{}, nil, &zi, nil, 3})(c)
+		}},
+		{staticOf[WManyPtrTypes]("many-pointer-types"), func(c *driverCtx) []reflect.Value {
+			mk := func(k int) WManyPtrTypes {
+				i64, i32, i16, f32, f64, b, s := int64(1000+k), int32(2000+k), int16(300+k), float32(k)+0.5, float64(k)+0.25, k%2 == 0, fmt.Sprint("s", k)
+				t := time.Date(2000+k, 1, 2, 3, 4, 5, 0, time.UTC)
+				a, bb, n, l, m := mpA{int64(k)}, mpB{fmt.Sprint("y", k), int32(k)}, null.IntFrom(int64(k)), []int64{int64(k)}, map[string]int64{"k": int64(k)}
+				i64b, i32b, i16b, f32b, f64b, b2, s2 := i64+1, i32+1, i16+1, f32+1, f64+1, !b, s+"'"
+				t2 := t.Add(time.Hour)
+				a2, bb2, n2, l2, m2 := mpA{int64(k + 1)}, mpB{fmt.Sprint("y'", k), int32(k + 1)}, null.IntFrom(int64(k+1)), []int64{int64(k + 1), 7}, map[string]int64{"k2": int64(k + 1)}
+				return WManyPtrTypes{&i64, &i32, &i16, &f32, &f64, &b, &s, &t, &a, &bb, &n, &l, &m, &i64b, &i32b, &i16b, &f32b, &f64b, &b2, &s2, &t2, &a2, &bb2, &n2, &l2, &m2}
+			}
+			return vals(mk(1), mk(2), mk(3))(c)
 		}},
 		{staticOf[WEmbedClash]("embedded-struct-same-field-names"), vals(WEmbedClash{1, EmbClashInner{2, "in"}, "out"}, WEmbedClash{-1, EmbClashInner{0, ""}, ""}, WEmbedClash{0, EmbClashInner{7, "z"}, "q"})},
 		{staticOf[WTwice]("struct-twice"), vals(WTwice{SInner{1, "a"}, SInner{2, "b"}})},
